@@ -77,12 +77,12 @@ def item(rng, st):
         ty = rng.choice(["int", "float"])
         st.kind[n] = ty
         return ["%s %s = %s * 2" % (ty, n, v)]
-    if r < 0.20:
+    if r < 0.23:
         n = rng.choice(NAMES)
         t = rng.choice(['str %s = "a b"', "bool %s = True", "bool %s = False"])
         src = [k for k, v in st.kind.items() if v == t.split()[0] and k != n]
         st.kind[n] = t.split()[0]
-        if src and rng.random() < 0.5:
+        if src and rng.random() < 0.8:
             # a string / boolean variable initialised from another one (an expression, not a literal)
             return ["%s %s = %s" % (t.split()[0], n, rng.choice(src))]
         return [t % n]
@@ -91,8 +91,13 @@ def item(rng, st):
         ty = rng.choice(["int", "float", "complex"])
         nr, nc = rng.choice([(1, 1), (1, 2), (2, 2), (1, 3), (3, 1), (2, 3)])
         shape = "[%d, %d]" % (nr, nc) if rng.random() < 0.4 else ""
-        rows = ["    " + ", ".join(_num(rng, ty if ty != "complex" else rng.choice(["int", "complex"]))
-                                   for _ in range(nc)) for _ in range(nr)]
+        def entry():
+            # mostly literals; now and then a declared scalar by name (an array row is a list of expressions)
+            c = [n_ for n_, k_ in st.kind.items() if k_ in ("int", "float") and n_ != a]
+            if c and rng.random() < 0.2:
+                return rng.choice(c)
+            return _num(rng, ty if ty != "complex" else rng.choice(["int", "complex"]))
+        rows = ["    " + ", ".join(entry() for _ in range(nc)) for _ in range(nr)]
         st.kind[a] = ("arr", ty, nr * nc)
         return ["%s array %s%s =" % (ty, a, shape)] + rows
     if r < 0.50:
